@@ -1,2 +1,152 @@
--- placeholder driver (model for C09 not built yet)
-def main : IO Unit := pure ()
+/-
+  Driver for the instance-mode model (C09).  The operators of the two table tests come from the
+  generated facts (Pyro.Gen.C09.singleTest / sessionTest), i.e. from the current source.
+
+    hist <ncls> {<mode> <creator>}* <nconn> <nev> {ev}*
+        mode = single|session|percall|invalid    creator = none|callable|falsy
+        ev   = O <c> <keep 0|1>  |  C <c> <cls> <outcome>  |  X <c>
+        outcome = ok <t 0|1> <eqc>  |  wt <t 0|1> <eqc>  |  rs
+      → r1;r2;... | n=<instances created> s<cls>=<idx> ... c<conn>.<cls>=<idx> ...
+        r = S<idx>:<t>:<eqc>:<created>:<creatorCalled> | TE | RS<creatorCalled> | DE | -
+    beh <isClass 0|1> <single|session|percall|invalid|notstr> <none|callable|falsycallable|notcallable|falsynotcallable>
+      → stored:<mode>:<creator> | TypeError | ValueError | SyntaxError
+    reg <0 | 1 mode creator>
+      → <mode>:<creator>
+-/
+import PyroModel.Instances
+import PyroModel.Gen.C09
+import Driver.Util
+
+open Pyro Pyro.Inst Driver
+
+def parseMode : String → Option Mode
+  | "single" => some .single
+  | "session" => some .session
+  | "percall" => some .percall
+  | "invalid" => some .invalid
+  | _ => none
+
+def parseCreator : String → Option Creator
+  | "none" => some .none
+  | "callable" => some .callable
+  | "falsy" => some .falsy
+  | _ => none
+
+def modeStr : Mode → String
+  | .single => "single" | .session => "session" | .percall => "percall" | .invalid => "invalid"
+
+def creatorStr : Creator → String
+  | .none => "none" | .callable => "callable" | .falsy => "falsy"
+
+def parseSpecs : Nat → List String → Option (List ClassSpec × List String)
+  | 0, rest => some ([], rest)
+  | n + 1, m :: c :: rest => do
+    let md ← parseMode m
+    let cr ← parseCreator c
+    let (l, r) ← parseSpecs n rest
+    pure (⟨md, cr⟩ :: l, r)
+  | _, _ => none
+
+def parseBool : String → Option Bool
+  | "0" => some false
+  | "1" => some true
+  | _ => none
+
+def parseEvents : Nat → List String → Option (List Event)
+  | 0, [] => some []
+  | n + 1, "O" :: c :: k :: rest => do
+    let c ← c.toNat?
+    let k ← parseBool k
+    let r ← parseEvents n rest
+    pure (.openConn c k :: r)
+  | n + 1, "X" :: c :: rest => do
+    let c ← c.toNat?
+    let r ← parseEvents n rest
+    pure (.close c :: r)
+  | n + 1, "C" :: c :: k :: "ok" :: t :: e :: rest => do
+    let c ← c.toNat?
+    let k ← k.toNat?
+    let t ← parseBool t
+    let e ← e.toNat?
+    let r ← parseEvents n rest
+    pure (.call c k (.ok t e) :: r)
+  | n + 1, "C" :: c :: k :: "wt" :: t :: e :: rest => do
+    let c ← c.toNat?
+    let k ← k.toNat?
+    let t ← parseBool t
+    let e ← e.toNat?
+    let r ← parseEvents n rest
+    pure (.call c k (.wrongType t e) :: r)
+  | n + 1, "C" :: c :: k :: "rs" :: rest => do
+    let c ← c.toNat?
+    let k ← k.toNat?
+    let r ← parseEvents n rest
+    pure (.call c k .raises :: r)
+  | _, _ => none
+
+def b01 (b : Bool) : String := if b then "1" else "0"
+
+def resStr : Res → String
+  | .served i cr cc => s!"S{i.idx}:{b01 i.truthy}:{i.eqc}:{b01 cr}:{b01 cc}"
+  | .typeError => "TE"
+  | .raised cc => s!"RS{b01 cc}"
+  | .daemonError => "DE"
+  | .done => "-"
+
+def srcTests : Option Tests :=
+  match Test.ofString Pyro.Gen.C09.singleTest, Test.ofString Pyro.Gen.C09.sessionTest with
+  | some a, some b => some ⟨a, b⟩
+  | _, _ => none
+
+def dumpState (s : State) (ncls nconn : Nat) : String :=
+  let singles := (List.range ncls).filterMap fun k =>
+    (s.tab (.single k)).map fun i => s!"s{k}={i.idx}"
+  let sess := (List.range nconn).flatMap fun c => (List.range ncls).filterMap fun k =>
+    (s.tab (.sess c k)).map fun i => s!"c{c}.{k}={i.idx}"
+  " ".intercalate ([s!"n={s.next}"] ++ singles ++ sess)
+
+def parseModeArg : String → Option ModeArg
+  | "notstr" => some .notStr
+  | m => (parseMode m).map .str
+
+def parseCreatorArg : String → Option CreatorArg
+  | "none" => some .none
+  | "callable" => some .callable
+  | "falsycallable" => some .falsyCallable
+  | "notcallable" => some .notCallable
+  | "falsynotcallable" => some .falsyNotCallable
+  | _ => none
+
+def specStr (s : ClassSpec) : String := s!"{modeStr s.mode}:{creatorStr s.creator}"
+
+def step : List String → String
+  | "hist" :: n :: rest =>
+    match srcTests with
+    | none => "unknown-test"
+    | some ts =>
+      match n.toNat?.bind (fun k => (parseSpecs k rest).map fun p => (k, p)) with
+      | some (ncls, specs, nconn :: nev :: evs) =>
+        match nconn.toNat?, nev.toNat?.bind (fun k => parseEvents k evs) with
+        | some nconn, some h =>
+          let spec : Nat → ClassSpec := fun k => (specs[k]?).getD ⟨.invalid, .none⟩
+          let (s, tr) := runHist ts spec State.init h
+          ";".intercalate (tr.map resStr) ++ " | " ++ dumpState s ncls nconn
+        | _, _ => "bad-events"
+      | _ => "bad-specs"
+  | ["beh", isClass, m, c] =>
+    match parseBool isClass, parseModeArg m, parseCreatorArg c with
+    | some ic, some m, some c =>
+      match behaviorCheck ic m c with
+      | .stored s => "stored:" ++ specStr s
+      | .typeError => "TypeError"
+      | .valueError => "ValueError"
+      | .syntaxError => "SyntaxError"
+    | _, _, _ => "bad-args"
+  | ["reg", "0"] => specStr (registerSpec none)
+  | ["reg", "1", m, c] =>
+    match parseMode m, parseCreator c with
+    | some m, some c => specStr (registerSpec (some ⟨m, c⟩))
+    | _, _ => "bad-args"
+  | _ => "bad-op"
+
+def main : IO Unit := runDriver step
